@@ -106,6 +106,8 @@ message_error(const char *fmt, ...)
 {
 	const int e = errno;
 	int code = C19_E_OTHER;
+	if (has(fmt, "Cannot read data from standard input")) c19_plan_add("\001R");
+	if (has(fmt, "Unexpected end of input") || has(fmt, "Null character found")) c19_plan_add("\001E");
 	if (strcmp(fmt, "%s: %s") == 0) code = C19_E_ERRNO;
 	else if (has(fmt, "Cannot remove")) code = C19_E_REMOVE;
 	else if (has(fmt, "Empty filename")) code = C19_E_EMPTY;
@@ -135,7 +137,35 @@ void message_progress_update(void) {}
 const char *tuklib_mask_nonprint(const char *str) { return str; }
 const char *tuklib_mask_nonprint_r(const char *str, char **mem) { (void)mem; return str; }
 void tuklib_open_stdxxx(int status) { (void)status; }
-void tuklib_exit(int status, int err_status, int show_error) { (void)err_status; (void)show_error; exit(status); }
+jmp_buf c19_exit_jmp;
+bool c19_exit_armed;
+int c19_exit_code;
+void
+tuklib_exit(int status, int err_status, int show_error)
+{
+	(void)err_status; (void)show_error;
+	if (c19_exit_armed) {
+		c19_exit_code = status;
+		longjmp(c19_exit_jmp, 1);
+	}
+	exit(status);
+}
+
+int c19_plan_n;
+char *c19_plan[C19_PLAN_MAX];
+void
+c19_plan_reset(void)
+{
+	for (int i = 0; i < c19_plan_n; ++i)
+		free(c19_plan[i]);
+	c19_plan_n = 0;
+}
+void
+c19_plan_add(const char *s)
+{
+	if (c19_plan_n < C19_PLAN_MAX)
+		c19_plan[c19_plan_n++] = xstrdup(s);
+}
 void tuklib_progname_init(char **argv) { (void)argv; }
 
 void *
@@ -159,7 +189,8 @@ void signals_unblock(void) {}
 void signals_init(void) {}
 void signals_exit(void) {}
 void hardware_init(void) {}
-void coder_run(const char *filename) { (void)filename; abort(); }
+// the real main() calls this for every input; the special pointer stdin_filename means "standard input"
+void coder_run(const char *filename) { c19_plan_add(filename == stdin_filename ? "\001S" : filename); }
 void coder_free(void) {}
 void list_file(const char *filename) { (void)filename; abort(); }
 void list_totals(void) {}
@@ -244,6 +275,8 @@ main(int argc, char **argv)
 		c19_probe_tables(stdout);
 		c19_probe_exit(stdout);
 		c19_probe_args(stdout);
+		fflush(stdout);
+		c19_probe_main(stdout, argv[2]);
 		printf("/-- `IO_BUFFER_SIZE` (src/xz/file_io.h): the unit in which io_write() looks for all-zero buffers -/\n"
 			"def ioBufferSize : Nat := %u\n\n", (unsigned)IO_BUFFER_SIZE);
 		fflush(stdout);
